@@ -2,6 +2,7 @@ CONSTANTS
   L = 4
   UsesGlobal = FALSE
   UsesHistory = FALSE
+  UsesProcess = FALSE
   Emit = TRUE
 INIT Init
 NEXT Next
